@@ -1,6 +1,6 @@
 (* Entry point evaluated by harness-generated case files (definitions only). *)
 From ZV.Common Require Import Base Run.
-From ZV.C02 Require Import Model.
+From ZV.C02 Require Import Model ModelRec.
 Open Scope N_scope.
 
 Definition zeros (n : N) : list N := repeat 0 (N.to_nat n).
@@ -34,6 +34,16 @@ Definition run_case (op : N) (a b : list N) : list N :=
          end
   | 3 => match rans_table a with
          | Some t => 1 :: t
+         | None => [0]
+         end
+  | 4 => match a with
+         | pos :: k :: p1 :: p2 :: p3 :: _ =>
+             let s := match k with 0 => SLiteral p1 | 1 => SLocal p1 p2 p3 | _ => SGlobal p1 p2 end in
+             let '(bytes, adv) := write_record b pos s in adv :: bytes
+         | _ => [98]
+         end
+  | 5 => match legacy_decompress b a with
+         | Some out => 1 :: out
          | None => [0]
          end
   | 9 => model_consts
